@@ -365,7 +365,9 @@ pub fn c04_case(b: &Batch, ri: usize, vals: &[DV], k: usize, st: &mut Stats, cou
         let mut refuse = false;
         for x in &vals {
             match u.after_reload(ty, v, x) {
-                Err(EncErr::WriterRejects(_)) => {
+                // documented writer refusal (Removed<T>, absent variant) or a field whose old
+                // wire type is only known to the reader (savefile_versions_as): outside the relation
+                Err(EncErr::WriterRejects(_)) | Err(EncErr::NoExp(_)) => {
                     refuse = true;
                     break;
                 }
